@@ -125,6 +125,9 @@ func genJoin(g *Rand, slot int, realm string, fl seqFlavour) SOp {
 	if fl == seqC20 {
 		op.Scribble = g.Chance(1, 3)
 	}
+	if fl == seqC10 && g.Chance(1, 3) {
+		op.QSize = g.Range(1, 2) // a pipelining client can fill this
+	}
 	if fl == seqC15 {
 		op.Net = g.Pick("", "raw", "raw", "ws", "ws")
 		op.Ser = g.Intn(3)
@@ -174,13 +177,19 @@ func genSeqOps(g *Rand, fl seqFlavour, nslots, n int, thorough bool) []SOp {
 		default:
 			w = []int{2, 3, 5, 3, 6, 6, 3, 7, 5, 2, 3, 0}
 		}
-		for len(w) < 13 {
+		for len(w) < 14 {
 			w = append(w, 0)
 		}
-		kind := []string{"join", "leave", "sub", "unsub", "pub", "reg", "unreg", "call", "yield", "inverr", "cancel", "meta", "sleep"}[g.Weighted(w...)]
+		if fl == seqC10 {
+			w[13] = 4
+		}
+		kind := []string{"join", "leave", "sub", "unsub", "pub", "reg", "unreg", "call", "yield", "inverr", "cancel", "meta", "sleep", "refburst"}[g.Weighted(w...)]
 		op.Kind = kind
 		uniq++
 		switch kind {
+		case "refburst":
+			op.K = g.Intn(1000)
+			op.Var = g.Intn(3)
 		case "join":
 			op = genJoin(g, op.Slot, "r1", fl)
 		case "leave":
@@ -231,7 +240,7 @@ func genSeqOps(g *Rand, fl seqFlavour, nslots, n int, thorough bool) []SOp {
 				op.Kw = nil
 			}
 		case "reg":
-			if (fl == seqC13 && g.Chance(3, 4)) || (fl == seqC12 && g.Chance(1, 2)) || (fl == seqC03 && g.Chance(1, 5)) || (fl == seqC05 && g.Chance(1, 5)) {
+			if (fl == seqC13 && g.Chance(3, 4)) || (fl == seqC12 && g.Chance(1, 2)) || (fl == seqC03 && g.Chance(1, 3)) || (fl == seqC05 && g.Chance(1, 5)) {
 				// few procedures, shared policies: callees with different
 				// feature sets end up on one registration
 				op.URI = g.Pick("p.a", "p.b")
